@@ -57,7 +57,7 @@ func cmdC17(args []string) {
 	fs.Parse(args)
 	rec, err := NewRecorder(*out)
 	must(err)
-	alpha := []byte("ab*?.+(|$")
+	alpha := []byte("ab*?.+(|$\xff") // (0xff is not valid UTF-8: two of them side by side are still two characters)
 	keys := allStrings(alpha, *klen)
 	sc := 0
 	for _, p := range allStrings(alpha, *plen) {
@@ -70,7 +70,7 @@ func cmdC17(args []string) {
 	long := []byte("ab*?.+()|^${}[]\\-x")
 	for i := 0; i < *nrand; i++ {
 		// the characters the property names (without the class/escape syntax it does not cover)
-		ralpha := []byte("ab*?.+()|^${}")
+		ralpha := []byte("ab*?.+()|^${}\xff")
 		_ = long
 		p := make([]byte, 1+rng.Intn(12))
 		for j := range p {
